@@ -98,6 +98,12 @@ theorem pubkey_decompress_spec (x : Nat) (odd : Bool) (q : Point) (h : decompres
     x < p ∧ ∃ y0, fsqrt ((x * x % p * x + curveB) % p) = some y0 ∧
       q = .aff x (if (y0 % 2 == 1) == odd then y0 else p - y0) := Parsers.decompress_spec x odd q h
 
+/-- accepted x-only (BIP340) keys: exactly 32 bytes, x < p, and the result is (x, y) with y² = x³ + 7 and the
+    even one of the two roots chosen; x ≥ p and non-residues are rejected. -/
+theorem xonly_pubkey_accept (b : List UInt8) (q : Point) (h : parseXOnly b = some q) :
+    b.length = 32 ∧ fromBE b < p ∧ ∃ y0, y0 < p ∧ y0 * y0 % p = (fromBE b * fromBE b % p * fromBE b + curveB) % p ∧
+      q = .aff (fromBE b) (if y0 % 2 = 0 then y0 else p - y0) := Parsers.parseXOnly_spec b q h
+
 /-- `ecdsa_verify_iff`: decred's Jacobian shortcut "R·z² = X ∨ (R + n < p ∧ (R+n)·z² = X)" — in affine terms
     x = r ∨ (r + n < p ∧ x = r + n) — is the defining condition x mod n = r, for every field element x < p
     and every r < n. -/
@@ -194,6 +200,10 @@ theorem pin_curveN : Generated.C11.curveN = (n : Int) := by decide
 theorem pin_curveB : Generated.C11.curveB = (curveB : Int) := by decide
 theorem pin_curveGx : Generated.C11.curveGx = (Gx : Int) := by decide
 theorem pin_curveGy : Generated.C11.curveGy = (Gy : Int) := by decide
+theorem pin_sizes : Generated.C11.schnorrSignatureSize = 64 ∧ Generated.C11.schnorrPubKeyBytesLen = 32 ∧
+    Generated.C11.pubKeyBytesLenCompressed = 33 ∧ Generated.C11.privKeyBytesLen = 32 ∧
+    Generated.C11.musigPubNonceSize = 66 ∧ Generated.C11.musigSecNonceSize = 97 ∧
+    Generated.C11.curveBitSize = 256 := by decide
 theorem pin_sigLens : Generated.C11.ecdsaMinSigLen = (MinSigLen : Int) ∧
     Generated.C11.ecdsaMaxSigLen = (MaxSigLen : Int) := by decide
 
